@@ -195,6 +195,10 @@ class UnitSystem:
         registry=None,
     ):
         self.registry = registry
+        # memo of the units derived for dimensions that have no entry in
+        # units_map; kept apart from units_map so that the latter only holds
+        # what was defined explicitly (callers test "dimensions in units_map")
+        self._derived_units = {}
         self.units_map = OrderedDict(
             [
                 (dimensions.length, length_unit),
@@ -253,9 +257,10 @@ class UnitSystem:
         if key not in um or um[key] is None:
             if cmks in key.free_symbols and self.units_map[cmks] is None:
                 raise MissingMKSCurrent(self.name)
-            units = _get_system_unit_string(key, self.units_map)
-            self.units_map[key] = parse_unyt_expr(units)
-            return Unit(units, registry=self.registry)
+            if key not in self._derived_units:
+                units = _get_system_unit_string(key, self.units_map)
+                self._derived_units[key] = parse_unyt_expr(units)
+            return Unit(self._derived_units[key], registry=self.registry)
         return Unit(self.units_map[key], registry=self.registry)
 
     def __setitem__(self, key, value):
@@ -266,6 +271,7 @@ class UnitSystem:
         if self.units_map[cmks] is None and cmks in key.free_symbols:
             raise MissingMKSCurrent(self.name)
         self.units_map[key] = parse_unyt_expr(str(value))
+        self._derived_units.clear()
 
     def __str__(self):
         return self.name
